@@ -25,6 +25,8 @@ CLAIMED.update({
  "C18": dict(text="Deductive: freeze() shadows every direct structural mutator (set recomputed from the ASTs each run); indirect mutators raise XGIError or leave the tables unchanged on a frozen instance. Coverage of the indirect mutators and of subhypergraph/copy is partial (see evidence).",
              ref="4/C18", technique="contract-based deductive verification (pyvc + z3) over an AST-derived mutator set"),
 })
+CLAIMED["C03"] = dict(text="Deductive: SInv = UInv + non-empty + duplicate-free + downward closed (quantifying over set-valued subsets) is a pre/postcondition of the complex's own mutators; removal removes exactly the simplex and its supersets; max_order bound; has_simplex answers membership. _subfaces/powerset enter through assumed contracts of itertools.combinations.",
+             ref="4/C03", technique="contract-based deductive verification (pyvc + z3, set-valued quantifiers), counter-models replayed natively")
 NA_REASON = {
  "C20": "no contract within reach: the observables are matplotlib collections and networkx float layouts (external libraries, floating point); see DESIGN 7",
 }
